@@ -437,7 +437,7 @@ class DemandSource(object):
 			if self._demand_list is None: raise AttributeError("For 'CD' (custom discrete) demand, demand_list must be provided")
 			if self._probabilities is None: raise AttributeError("For 'CD' (custom discrete) demand, probabilities must be provided")
 			if len(self._demand_list) != len(self._probabilities): raise AttributeError("For 'CD' (custom discrete) demand, demand_list and probabilities must have equal lengths")
-			if np.sum(self._probabilities) != 1: raise AttributeError("For 'CD' (custom discrete) demand, probabilities must sum to 1")
+			if not math.isclose(np.sum(self._probabilities), 1, rel_tol=1e-9): raise AttributeError("For 'CD' (custom discrete) demand, probabilities must sum to 1")
 
 	# CONVERSION TO/FROM DICTS
 
